@@ -686,13 +686,13 @@ def selftest(ctx):
 
 
 # --------------------------------------------------------------------------
-def mc_constants(maxh, maxw, maxrows, full, emit, images=True, tables=True):
+def mc_constants(maxh, maxw, maxrows, full, emit, images=True, tables=True, origin=0):
     return {"MaxH": maxh, "MaxW": maxw, "MaxRows": maxrows, "FullBlanks": full, "Emit": emit,
-            "DoImages": images, "DoTables": tables}
+            "DoImages": images, "DoTables": tables, "Origin": origin}
 
 
 INVARIANTS = ["ThmExact", "ThmComplement", "ThmPlanes", "ThmIdempotent", "ThmTrivialRegions",
-              "ThmTable", "ThmTableComplement"]
+              "ThmCodedDesign", "ThmTable", "ThmTableComplement"]
 
 
 def case_id(c):
@@ -725,6 +725,14 @@ def run(ctx):
             raise common.MachineryError("%s: %d cases printed for %d states" % (name, len(res.printed), res.distinct))
         for c in res.printed:
             cases[case_id(c)] = c
+    # the model is sensitive to the index-origin convention of the coded design
+    r1 = common.run_tlc("MC_Masking", common.cfg(spec="Spec", constants=mc_constants(2, 2, 0, False, False, tables=False, origin=1),
+                                                 invariants=["ThmCodedDesign"], deadlock=False),
+                        os.path.join(ctx.workdir, "design_origin1"), workers=2, heap="2g")
+    if r1.violated != "ThmCodedDesign":
+        raise common.MachineryError("model insensitive: Origin=1 gives no counterexample (%r, %r)" % (r1.violated, r1.error))
+    ctx.notes["design_counterexample_origin1"] = ("MC_Masking with Origin=1 (0-based indices passed under the 1-based "
+                                                  "convention) violates ThmCodedDesign as expected")
     selftest(ctx)
 
     rng = random.Random(ctx.seed)
@@ -778,18 +786,27 @@ def run(ctx):
                              "wait_for_theorem_job": round(common.time.time() - t2, 1)}
 
     rimg = [r for r in recs if r.get("pat") == "random" and r["err"] == ""]
-    ctx.count(evaluations=2 * len(recs), traces=len(recs),
-              nontrivial=len({(r["kind"], r["func"], r.get("pat"), r.get("classes"), r.get("H"), r.get("W"), r.get("P"),
-                               r.get("seed"), str(r.get("img"))) for r in recs}))
+    def nontrivial(r):
+        if r["err"]:
+            return False
+        if r["kind"] == "table":
+            return len(r["rows"]) > 0
+        n_in = sum(sum(1 for b in row if b) for row in r["In"])
+        return 0 < n_in < r["H"] * r["W"] and any(t > 0 for pl in r["img"] for row in pl for t in row)
+    ctx.count(evaluations=2 * len(recs), traces=len(recs), nontrivial=sum(1 for r in recs if nontrivial(r)))
     ctx.cov["rule"] = ("one record = one (input, region) pair executed on the real code with negate off and on; "
-                       "distinct = distinct (function, shape, membership pattern, blank pattern / table class word / seed)")
+                       "all records are distinct inputs; nontrivial = the region boundary crosses the image and the image has data / the table has rows")
     ctx.cov["exhaustive"] = True
     ctx.cov["domain"] = {"theorems": "all {value,blank} images up to 3x%d x 35 membership patterns x negate x planes{1,2}; all tables <= 5 rows over 4 classes x negate" % (3 if quick else 4),
                          "replayed_grid_cases": n_grid, "random_images": nimg, "random_tables": ntab,
                          "random_image_pixels": int(sum(r["H"] * r["W"] * r["P"] for r in rimg)),
                          "random_image_pixels_skipped_near_healpix_edge": int(sum(r.get("n_skip", 0) for r in rimg)),
                          "random_images_with_boundary_inside": int(sum(1 for r in rimg if 0 < r.get("n_in", 0) < r["H"] * r["W"]))}
-    for r in (recs[0], recs[n_grid - 1], recs[n_grid]):
+    def pick(pred, default):
+        return next((r for r in recs if pred(r)), default)
+    for r in (pick(lambda r: r["kind"] == "image" and (r["H"], r["W"], r["P"]) == (3, 4, 2) and r.get("pat") == "col_ge", recs[0]),
+              pick(lambda r: r["kind"] == "table" and len(r["rows"]) == 5 and set(r.get("classes", "")) == set("IOad"), recs[n_grid - 1]),
+              recs[n_grid]):
         ctx.sample({k: v for k, v in r.items() if not (k in ("In", "skip", "img", "outF", "outT") and r.get("pat") == "random")})
     ctx.assumptions += [
         "membership oracle: HEALPix pixel (healpy.ang2pix, nest) at the region's maxdepth of the astropy.wcs "
